@@ -222,6 +222,7 @@ type allowedLoc struct {
 	ref *Term
 	all bool  // whole row (elem registers)
 	idx *Term // single element
+	anyRef bool // every object (register-level assigns)
 }
 
 func (e *Enc) frameAllow(fr *Frame, con *FuncContract) (map[string][]allowedLoc, error) {
@@ -229,6 +230,14 @@ func (e *Enc) frameAllow(fr *Frame, con *FuncContract) (map[string][]allowedLoc,
 	env := e.envForCall(fr.fn, fr.args, nil, entry, entry)
 	allow := map[string][]allowedLoc{}
 	for _, cl := range con.assigns {
+		if cl.kind == "assigns-any" {
+			r, err := e.anyReg(env, cl.text)
+			if err != nil {
+				return nil, err
+			}
+			allow[r.name] = append(allow[r.name], allowedLoc{anyRef: true})
+			continue
+		}
 		sv, err := env.evalAny(cl.expr)
 		if err == nil && sv.wlog {
 			for _, n := range []string{"W:len", "W:kind", "W:int", "W:str"} {
@@ -273,6 +282,11 @@ func (e *Enc) frameFormula(fr *Frame, allow map[string][]allowedLoc, st *State, 
 	before := e.reg(&fr.entry, r)
 	if after == before {
 		return tb.True()
+	}
+	for _, a := range allow[n] {
+		if a.anyRef {
+			return tb.True()
+		}
 	}
 	ref := tb.BoundVar("fr", RefSort)
 	if r.elem {
